@@ -331,15 +331,27 @@ def surface_job(args):
         ang = min(math.degrees(math.atan2(n2, n1)), 80.0)        # Brewster
     o = Optic()
     o.add_surface(index=0, thickness=np.inf, material=IdealMaterial(n=n1))
-    o.add_surface(index=1, radius=np.inf, thickness=rnd.uniform(1.0, 10.0), material=IdealMaterial(n=n2),
-                  is_stop=True, coating="fresnel")
-    o.add_surface(index=2, material=IdealMaterial(n=n2))
+    # every third job meets the coated plane travelling towards -z (behind a plane fold mirror): the
+    # same interface, the same angles - by symmetry the same transmitted fractions
+    reverse = seed % 3 == 0
+    ks = 1
+    if reverse:
+        o.add_surface(index=1, radius=np.inf, thickness=-rnd.uniform(1.0, 10.0), material="mirror", is_stop=True)
+        o.add_surface(index=2, radius=np.inf, thickness=-rnd.uniform(1.0, 10.0), material=IdealMaterial(n=n2),
+                      coating="fresnel")
+        o.add_surface(index=3, material=IdealMaterial(n=n2))
+        ks = 2
+    else:
+        o.add_surface(index=1, radius=np.inf, thickness=rnd.uniform(1.0, 10.0), material=IdealMaterial(n=n2),
+                      is_stop=True, coating="fresnel")
+        o.add_surface(index=2, material=IdealMaterial(n=n2))
     o.set_aperture("EPD", 2.0)
     o.set_field_type("angle")
     o.add_field(y=0.0)
     o.add_field(y=ang)
     o.add_wavelength(0.55, is_primary=True)
-    desc = "plane surface n1=%s n2=%s field angle %s deg" % (n1.hex(), n2.hex(), float(ang).hex())
+    desc = "plane surface%s n1=%s n2=%s field angle %s deg" % (" met backwards" if reverse else "", n1.hex(), n2.hex(),
+                                                                 float(ang).hex())
     res = {}
     try:
         for nm in ("U", "H", "V"):
@@ -349,13 +361,14 @@ def surface_job(args):
     except Exception as ex:
         return {"error": "trace: %s: %s" % (type(ex).__name__, ex), "seed": seed, "events": [], "desc": desc}
     sg = o.surface_group
-    s1 = sg.surfaces[1]
+    s1 = sg.surfaces[ks]
     n1v = float(np.ravel(s1.material_pre.n(0.55))[0])
     n2v = float(np.ravel(s1.material_post.n(0.55))[0])
     events, skipped = [], 0
+    zs = -1.0 if reverse else 1.0           # (the mirror image of the backward pass is judged)
     for r in rnd.sample(range(res["U"].size), 2):
-        d0 = [float(sg.L[0, r]), float(sg.M[0, r]), float(sg.N[0, r])]
-        d1 = [float(sg.L[1, r]), float(sg.M[1, r]), float(sg.N[1, r])]
+        d0 = [float(sg.L[ks - 1, r]), float(sg.M[ks - 1, r]), zs * float(sg.N[ks - 1, r])]
+        d1 = [float(sg.L[ks, r]), float(sg.M[ks, r]), zs * float(sg.N[ks, r])]
         vals = d0 + d1 + [res[k][r] for k in "UHV"]
         if not all(math.isfinite(v) for v in vals) or d1[2] < CT_MIN or d0[2] < CI_MIN:
             skipped += 1
@@ -364,6 +377,6 @@ def surface_job(args):
                        "d1": [dy(v) for v in d1], "iu": dy(res["U"][r]), "ih": dy(res["H"][r]),
                        "iv": dy(res["V"][r]),
                        "_cls": {"coating": "fresnel", "entry": "trace", "lens": "plane_surface",
-                                "dense_to_rare": n1v > n2v},
+                                "dense_to_rare": n1v > n2v, "met_backwards": reverse},
                        "_in": {"lens": desc, "ray": int(r)}})
     return {"seed": seed, "events": events, "skipped": skipped, "traces": 3, "desc": desc}
